@@ -107,14 +107,29 @@ def h : Handler := fun op j =>
       pure (showRes (equilibriumQuotients s (← getRatList j "concs")))
   | "lin_f" => do
       let s ← getSys j
+      match j.getObjVal? "own_params" with
+      | .ok (.arr _) =>
+          pure (showRes (numSysLinOwnF s (← getBoolList j "precipitates") (← getRat j "small") (← getRatList j "own_params")
+            (← getRatList j "y") (← getRatList j "params")))
+      | _ =>
       pure (showRes (numSysLinF s (← getBoolList j "precipitates") (← getRat j "small")
         (← getRatList j "y") (← getRatList j "params")))
   | "square_f" => do
       let s ← getSys j
+      match j.getObjVal? "own_params" with
+      | .ok (.arr _) =>
+          pure (showRes (numSysSquareOwnF s (← getBoolList j "precipitates") (← getRat j "small") (← getRatList j "own_params")
+            (← getRatList j "y") (← getRatList j "params")))
+      | _ =>
       pure (showRes (numSysSquareF s (← getBoolList j "precipitates") (← getRat j "small")
         (← getRatList j "y") (← getRatList j "params")))
   | "linrel_f" => do
       let s ← getSys j
+      match j.getObjVal? "own_params" with
+      | .ok (.arr _) =>
+          pure (showRes (numSysLinRelOwnF s (← getBoolList j "precipitates") (← getRat j "small") (← getRatList j "own_params")
+            (← getRatList j "y") (← getRatList j "params")))
+      | _ =>
       pure (showRes (numSysLinRelF s (← getBoolList j "precipitates") (← getRat j "small")
         (← getRatList j "y") (← getRatList j "params")))
   | "upper_bounds" => do
@@ -122,8 +137,12 @@ def h : Handler := fun op j =>
       pure (showRes (upperConcBounds s (← getRatList j "init")))
   | "log_f" => do
       let s ← getSys j
-      match numSysLogF s (← getBoolList j "precipitates") (← getFloatBits j "small")
-          (← getFloatBitsList j "y") (← getFloatBitsList j "params") with
+      let r ← match j.getObjVal? "own_params" with
+        | .ok (.arr _) => pure (numSysLogOwnF s (← getBoolList j "precipitates") (← getFloatBits j "small")
+            (← getFloatBitsList j "own_params") (← getFloatBitsList j "y") (← getFloatBitsList j "params"))
+        | _ => pure (numSysLogF s (← getBoolList j "precipitates") (← getFloatBits j "small")
+            (← getFloatBitsList j "y") (← getFloatBitsList j "params"))
+      match r with
       | .ok l => pure (showFloatBitsList l)
       | .error e => pure e
   | "conservation" => do
@@ -180,6 +199,42 @@ def h : Handler := fun op j =>
         | _ => .error "!bad-arg:form"
       match r with
       | .ok l => pure (showFloatBitsList l)
+      | .error e => pure e
+  | "pre_post" => do
+      -- change of variables of a formulation: "dir" = "pre" | "post"; Float
+      let s ← getSys j
+      let form ← getStr j "form"
+      let dir ← getStr j "dir"
+      let x ← getFloatBitsList j "x"
+      let small ← getFloatBits j "small"
+      let p ← getFloatBitsList j "params"
+      match form, dir with
+      | "square", "pre" => pure (showFloatBitsList (squarePre x))
+      | "square", "post" => pure (showFloatBitsList (squarePost x))
+      | "log", "pre" => pure (showFloatBitsList (logPre small x))
+      | "log", "post" => pure (showFloatBitsList (logPost x))
+      | "linrel", d =>
+          match upperConcBounds s (initConcsOf s p) with
+          | .error e => pure e
+          | .ok m =>
+            if d == "pre" then pure (showFloatBitsList (linRelPre m x))
+            else if d == "post" then pure (showFloatBitsList (linRelPost m x))
+            else .error "!bad-arg:dir"
+      | _, _ => .error "!bad-arg:form"
+  | "quotients2d" => do
+      let s ← getSys j
+      let rows ← (← getArr j "rows").mapM fun r => do (← asArr r).mapM asRat
+      match equilibriumQuotients2d s rows with
+      | .ok m => pure ("[" ++ ",".intercalate (m.map showRatList) ++ "]")
+      | .error e => pure e
+  | "composition_keys" => do
+      let s ← getSys j
+      let skip ← (← getIntList j "skip").mapM fun i => if i < 0 then .error "!bad-arg:skip" else pure i.toNat
+      pure (showNatList (compositionKeysSkip (s.substances.map (·.2)) skip))
+  | "stoichs_constants_default" => do
+      let s ← getSys j
+      match stoichsConstantsDefault s (← getRatList j "rxn_params") with
+      | .ok (A, ks) => pure (showIntMat A ++ "|" ++ showRatList ks)
       | .error e => pure e
   | "solver_params" => do
       pure (showRatList (solverParams (← getRatList j "init") (← getRatList j "rxn_params")))
